@@ -13,6 +13,8 @@ def peer_nontrivial(tok, res):
         return res.startswith("e1") or res == "e0"
     if tok[0] == "ssh":
         return res.startswith("up:") or res in ("authfail", "closed")
+    if tok[0] in ("authkey", "authkey2", "cproxy", "alive"):
+        return res not in ("gone", "timeout")
     return False
 
 
@@ -59,6 +61,12 @@ PROP = {
             "Frp.C04.refused_no_residue_timed",
             "Frp.C04.user_served_from_pool", "Frp.C04.pooled_step", "Frp.C04.pooled_only_by_accepted_work",
             "Frp.C04.user_served_by_checked_conn", "Frp.C04.model_holdsOn_user",
+            "Frp.C04.lastPing_step", "Frp.C04.lastPing_frozen_without_valid_ping", "Frp.C04.model_holdsOn_lastPing",
+            "Frp.C04.login_proves_token", "Frp.C04.other_token_login_refused", "Frp.C04.other_token_ping_refused",
+            "Frp.C04.other_token_work_refused", "Frp.C04.model_holdsOn_keyInj",
+            "Frp.C04.ssh_only_pubkey_can_authenticate", "Frp.C04.gw_ssh_other_methods_fail", "Frp.C04.sshAuthLoop_ok",
+            "Frp.C04.gwSshCfg_fields", "Frp.C04.source_facts_internal_provenance", "Frp.C04.source_facts_ssh_methods",
+            "Frp.C04.source_facts_liveness_key",
         ],
         "engines": [
             {"name": "peer", "quick_n": 8000, "thorough_n": 32000, "thorough_seeds": 5,
@@ -66,7 +74,14 @@ PROP = {
              "nontrivial": peer_nontrivial, "result_class": peer_class},
         ],
         "rule": "peer engine: a real server.Service on loopback per episode, 16 kinds in turn: token auth with every subset "
-                "of the scopes {HeartBeats, NewWorkConns}; 2 of 16 with a stub OIDC verifier; 2 of 16 with auth.method=oidc "
+                "of the scopes {HeartBeats, NewWorkConns}, each token episode with a token of its own (0-200 bytes with the MD5 "
+                "block boundaries 55/56, 63/64/65, 119/120, 127/128 over-represented; ASCII, ending in digits, multi-byte "
+                "UTF-8, arbitrary bytes) and tcpMux on or off; keys of all three paths (Login, Ping, NewWorkConn) include the "
+                "keys of tokens CLOSE to the configured one (every kind of proper prefix incl. the first 64 / 63 bytes, "
+                "extensions, one byte changed, same first 64 bytes with another tail), timestamps of every magnitude "
+                "(MinInt64 ... MaxInt64); util.GetAuthKey itself is evaluated on such tokens and pairs of tokens (ops authkey / "
+                "authkey2) and compared with two MD5s that are not frp's (crypto/md5 in the harness, Frp.Md5 in the driver, "
+                "which must agree with each other on every op line); 2 of 16 with a stub OIDC verifier; 2 of 16 with auth.method=oidc "
                 "for real (the verifier NewService builds itself: auth.NewTokenVerifier -> go-oidc discovery + remote JWKS "
                 "against an in-process OpenID provider on loopback; every key of these episodes is fetched by the real frpc "
                 "side auth.NewOidcAuthSetter.SetLogin/SetPing/SetNewWorkConn from the provider's client-credentials "
@@ -74,8 +89,11 @@ PROP = {
                 "alg none, HS256, damaged and transplanted signatures / non-JWT / endpoint failure; server options "
                 "audience, skipExpiryCheck, skipIssuerCheck; subjects changing between login and ping / work connection; "
                 "client and server scope settings agreeing and not); 2 of 12 with the ssh tunnel gateway enabled (host key "
-                "and authorized_keys made at run time; the harness is an in-process x/crypto/ssh client: authorized key, "
-                "unknown key, authorized public key without the private key, no key; authorized_keys rewritten, emptied, "
+                "and authorized_keys made at run time; the harness is an in-process x/crypto/ssh client that tries EVERY "
+                "user-auth method x/crypto/ssh implements, alone and in combinations of up to five requests in any order: "
+                "none, password (empty, the frp token, anything), keyboard-interactive (any answers), gssapi-with-mic (a fake "
+                "mechanism), publickey with an authorized key, an unknown key, an authorized / unknown public key without the "
+                "private key; authorized_keys rewritten, emptied, "
                 "removed, made unparsable, duplicate lines between connections; authorizedKeysFile not configured "
                 "(NoClientAuth) with right / wrong / no --token; tcp --remote_port 0 / stcp commands, unsupported type, "
                 "bad flag, proxy name clashes; a user connection through the tcp proxy echoed by the ssh client; network "
@@ -97,9 +115,16 @@ PROP = {
                 "connection and carry a user connection through its tcp proxy (tproxy / uconn: a real connection to the "
                 "remote port, echoed by the harness on the pooled work connection frps chose); the same sieges start "
                 "with low probability inside every other episode, and OIDC episodes run sieges of one stale token "
-                "(expired / key withdrawn) replayed on the three paths. The harness is a raw peer using the real codec "
-                "over the real client connector (tcp, tls, websocket, kcp, quic; yamux/quic streams) and over the internal "
-                "listener; after every op the session table (run id, verifier kind, pool, cap, accepted pings, proxies) "
+                "(expired / key withdrawn) replayed on the three paths. LIVENESS: every result carries a mark when Control.lastPing of any session moved during an "
+                "operation that was not a heartbeat on its control connection (NewProxy, CloseProxy - op cproxy -, work / "
+                "visitor connections, refused logins, user connections); every run starts with a REAL-TIME scenario (frps with "
+                "heartbeatTimeout 1 s and the HeartBeats scope): a session stops sending valid heartbeats and keeps sending "
+                "invalid ones plus CloseProxy / NewProxy / work connections every 250 ms for 3.25 s - it must be gone, a "
+                "bystander with valid heartbeats alive. The harness is a raw peer using the real codec "
+                "over the real client connector (tcp, tls, websocket, websocket with TLS inside, kcp, quic; yamux/quic "
+                "streams, or a connection per attempt with tcpMux off) and over the internal listener; the hand corpus sends "
+                "Login with client_spec.always_auth_pass=true and five kinds of wrong key over every transport with tcpMux on "
+                "and off in every run; after every op the session table (run id, verifier kind, pool, cap, accepted pings, proxies) "
                 "is dumped through a verif hook and compared with the model. Non-trivial = logins, work connections that "
                 "were pooled or refused with a reply, pings answered, ssh connections; distinct = distinct (op line, "
                 "result) pairs",
@@ -107,8 +132,10 @@ PROP = {
             "model Frp/Model/AuthGate.lean written by hand from server/service.go (handleConnection, RegisterControl, "
             "RegisterWorkConn, RegisterVisitorConn), server/control.go (ControlManager, handlePing, pool, worker), "
             "pkg/auth/{token,oidc,pass}.go; tied by the peer engine",
-            "util.GetAuthKey is abstract (H); the harness computes md5(token ++ decimal ts) itself with crypto/md5 and the "
-            "engine compares keys against that digest, so a change of GetAuthKey shows up as a disagreement",
+            "util.GetAuthKey is abstract (H) in the theorems; in the driver H is Frp.Md5 (RFC 1321 in Lean) over token ++ decimal "
+            "ts, cross-checked on every op line against the harness's crypto/md5; what frps accepts and what util.GetAuthKey "
+            "returns (ops authkey / authkey2) are compared with that, and the regenerated fact authKeySrc pins the statements "
+            "of GetAuthKey (whole token, then strconv.FormatInt(ts, 10), md5, hex)",
             "go-oidc Verify is modelled at claim level (issuer incl. the Google exception, audience, expiry, nbf leeway) "
             "from coreos/go-oidc v3.14.1 verify.go with the oidc.Config auth.NewTokenVerifier builds; JWT parsing and "
             "the signature check (jose.ParseSigned with the provider's algorithms + RemoteKeySet.VerifySignature) are the "
@@ -116,7 +143,11 @@ PROP = {
             "provider, the harness decodes every minted token itself (encoding/json, crypto/rsa) and compares it with "
             "the op line; the stub episodes (verif hook Service.VerifAuthSetVerifier) remain for subject bookkeeping",
             "the ssh handshake itself is golang.org/x/crypto/ssh (server and client): the model's SshAuth.pubkey k proved "
-            "abstracts 'the client signed with the private key of k'; tied by the S episodes (real gateway, real ssh client)",
+            "abstracts 'the client signed with the private key of k'; the user-auth loop (AuthGate.sshTry / sshAuthLoop: which "
+            "method needs which ServerConfig field, a bad signature ends the connection, six failures) is written by hand from "
+            "x/crypto v0.37.0 ssh/server.go serverAuthenticate; tied by the S episodes (real gateway, real ssh client). The go "
+            "ssh client sends a method only if the server lists it as able to continue, so 'password refused' is observed as "
+            "'never asked for / handshake fails'",
             "the harness's OpenID provider and ssh client (harness/eng_peer_auth.go) are test doubles written for this check",
             "go-oidc's RemoteKeySet (cached keys first, refetch and replace on a miss, nothing on a failed fetch) is modelled "
             "from coreos/go-oidc v3.14.1 jwks.go (AuthGate.sigOkAt / cacheAfterSig / cacheAfterVerify); tied by the O and C "
@@ -129,6 +160,14 @@ PROP = {
             "the same translator lists every mention of svr.sshTunnelListener in server/ and of peerServerListener in pkg/ssh, "
             "the PutConn calls of pkg/ssh and pkg/virtual, the order handshake -> virtual client in TunnelServer.Run and the "
             "statements of NewGateway's PublicKeyCallback; pinned by theorem C04.source_facts_gateway",
+            "the same translator, added in round 4: parameter lists of HandleListener / handleConnection / RegisterControl / "
+            "RegisterWorkConn, every identifier `internal` in server/ with what it resolves to (a parameter, never assigned), the "
+            "identifiers of the bypass condition, every function of server/ from net.Conn / net.Listener / net.Addr to bool (none), "
+            "the condition that puts the configured verifier in charge in RegisterWorkConn; every ssh.ServerConfig literal and "
+            "every write of one of its authentication fields, every use of sshConn.Permissions and every write to clientCfg in "
+            "TunnelServer.Run; every lastPing.Store call and the order plugin -> VerifyPing -> return -> Store in handlePing; the "
+            "statements of util.GetAuthKey and its uses in pkg/auth; pinned by theorems C04.source_facts_internal_provenance, "
+            "C04.source_facts_ssh_methods, C04.source_facts_liveness_key",
             "hooks: server/verif_authgate.go (tag verif): VerifAuthSessions (read-only dump), VerifAuthInternalListener, "
             "VerifAuthSetVerifier",
         ],
@@ -137,7 +176,15 @@ PROP = {
             "NewControl failing (crypto.NewWriter error) and Login.PoolCount < -10 (panic, DESIGN 7 #4 / C16) are outside the model; the engine sends pool counts 0, 1, 7",
             "no timestamp freshness check exists in frps and token and timestamp are concatenated without separator: "
             "'accepted' means key = H token ts for the ts the peer chose, nothing more (a recorded Login can be replayed)",
-            "with TCPMux on (default) HeartbeatTimeout defaults to -1 and the heartbeat watchdog is off altogether; the ping theorems are about lastPing",
+            "with TCPMux on (default) HeartbeatTimeout defaults to -1 and the heartbeat watchdog is off altogether; the ping theorems "
+            "are about lastPing (lastPing_step / lastPing_frozen_without_valid_ping: every event, every history); the watchdog "
+            "itself (1 s ticker, time.Since(lastPing) > timeout) is driven once per run in real time with slack: the session "
+            "may be found gone from 0.5 s of model time before the timeout and must be gone 2 s after it",
+            "key function: `KeyInjective H` (for a fixed timestamp different tokens give different keys) is an ASSUMPTION of "
+            "login_proves_token / other_token_*_refused; it is false for MD5 on arbitrary strings (collisions exist) and is "
+            "evaluated on util.GetAuthKey by the engine on the tested domain (tokens 0-200 bytes and their near tokens)",
+            "ssh: at most five user-auth requests after the initial none per connection are generated (the model has the "
+            "six-failure limit; the go client sends each method name once and all keys in one publickey method)",
             "the visitor manager's decision for NewVisitorConn is an input of the model (C08)",
             "concurrent logins appending to OidcAuthConsumer.subjectsFromLogin without a lock (DESIGN 7 #18) are not modelled",
             "OIDC: subjectsFromLogin is one list per server, never shortened: 'the login's subject' means the subject of ANY "
@@ -160,7 +207,7 @@ PROP = {
 META = {
         "engine": "lean+harness(peer)",
         "design_ref": "DESIGN.md §6 C04",
-        "technique": "Lean 4 model of the first-message dispatcher and heartbeat handler with abstract key function, the claim-level decision of the OIDC verifier (signature abstract) and the ssh tunnel gateway as the only producer of internal connections; theorems for all states, messages, plugin behaviours, and by induction over all event histories / refused bursts of any length / timed histories (clock, published keys and go-oidc's key cache changing between messages) / system histories of network events and ssh tunnels; differential correspondence against a real server.Service driven as a raw network peer over five transports and the internal listener, as a real OIDC client of an in-process provider, and as a real ssh client of the gateway",
-        "text": "Proof: a login is answered with success and a session appears only if the verifier RegisterControl selected accepted the login the plugins handed on; from a network listener that verifier is always the configured one and the outcome (state and reply) is identical for both values of client_spec.always_auth_pass; over every history without logins on the internal listener no session ever holds the always-pass verifier. With the HeartBeats scope on, a ping with a key that is not accepted leaves the whole state (lastPing included) unchanged and is answered Pong{Error}; the session is not closed by it. A work connection stays open (pooled) only if its run id names a live session, the verifier used accepts it and the pool has room; otherwise it is closed and the state is unchanged. Every sequence of refused first messages of any length leaves the server state literally unchanged; accepted logins / work connections touch no session with another run id. OIDC: a key is accepted iff it parses, is signed by a key the provider publishes and its claims pass the checks auth.NewTokenVerifier configures (issuer unless skipIssuerCheck, configured audience among aud unless none is configured, exp / nbf unless skipExpiryCheck); sessions, heartbeats (scope on) and network work connections (scope on) need such a token, the latter two with a subject some accepted login in the history put into subjectsFromLogin. Time: every message is judged at its own moment - clock and the keys the provider publishes then, plus the keys go-oidc has cached; the answer to a login depends on nothing of the server's state, the answer to a heartbeat / work connection only on the session's verifier kind, the pool's room and which subjects have logged in; over every timed history a token that is not valid at that moment (expired; signed by a key neither cached nor published, e.g. one the provider published at no moment of the history) is refused on all three paths and nothing changes, although the same token may have been accepted any number of times before; the key cache only ever holds keys the provider published. A user connection is joined only with a connection from the pool, and over every history a connection is in a pool only through a work connection the server accepted in the state of that moment. ssh gateway: with authorizedKeysFile configured the handshake succeeds only for a client that proves a key listed in the file as read at that moment, a client that fails it changes nothing, and over every history of network events and ssh tunnels no session holds the always-pass verifier unless such a client connected; without authorizedKeysFile the virtual client does not claim the exemption and a tunnel comes up only with the right --token. Kernel-checked, axioms propext/Quot.sound only. Tied per run by 8k (quick) operations against a real frps, incl. the real go-oidc verifier under key rotation and passing time, the real ssh gateway, and sieges of 64-319 consecutive refused operations.",
-        "note": "Finding (known, witness theorem workconn_scope_witness): RegisterWorkConn verifies with the SESSION's verifier, so a work connection from a network listener naming the run id of an ssh-gateway (always-pass) session is pooled without a key even with the NewWorkConns scope on; repaired model behind AuthGate.workVerifierIsFixed (theorem workconn_scope_fixed), Go patch hooks/C04-fix-workconn-verifier.patch. Trusted: Lean kernel; the hand-written model; harness generators; the read-only facts about who reaches RegisterControl with internal = true. Not covered: MD5 / JWT signature / ssh cryptography (abstract predicates, exercised through the real libraries by the engine), timestamp freshness (none exists).",
+        "technique": "Lean 4 model of the first-message dispatcher and heartbeat handler with abstract key function, the claim-level decision of the OIDC verifier (signature abstract), the ssh user-auth loop over every method of x/crypto/ssh with the ServerConfig the gateway builds, and the ssh tunnel gateway as the only producer of internal connections; theorems for all states, messages, plugin behaviours, and by induction over all event histories / refused bursts of any length / timed histories (clock, published keys and go-oidc's key cache changing between messages) / system histories of network events and ssh tunnels; differential correspondence against a real server.Service driven as a raw network peer over five transports and the internal listener, as a real OIDC client of an in-process provider, and as a real ssh client of the gateway",
+        "text": "Proof: a login is answered with success and a session appears only if the verifier RegisterControl selected accepted the login the plugins handed on; from a network listener that verifier is always the configured one and the outcome (state and reply) is identical for both values of client_spec.always_auth_pass; over every history without logins on the internal listener no session ever holds the always-pass verifier. With the HeartBeats scope on, a ping with a key that is not accepted leaves the whole state (lastPing included) unchanged and is answered Pong{Error}; the session is not closed by it. A work connection stays open (pooled) only if its run id names a live session, the verifier used accepts it and the pool has room; otherwise it is closed and the state is unchanged. Every sequence of refused first messages of any length leaves the server state literally unchanged; accepted logins / work connections touch no session with another run id. OIDC: a key is accepted iff it parses, is signed by a key the provider publishes and its claims pass the checks auth.NewTokenVerifier configures (issuer unless skipIssuerCheck, configured audience among aud unless none is configured, exp / nbf unless skipExpiryCheck); sessions, heartbeats (scope on) and network work connections (scope on) need such a token, the latter two with a subject some accepted login in the history put into subjectsFromLogin. Time: every message is judged at its own moment - clock and the keys the provider publishes then, plus the keys go-oidc has cached; the answer to a login depends on nothing of the server's state, the answer to a heartbeat / work connection only on the session's verifier kind, the pool's room and which subjects have logged in; over every timed history a token that is not valid at that moment (expired; signed by a key neither cached nor published, e.g. one the provider published at no moment of the history) is refused on all three paths and nothing changes, although the same token may have been accepted any number of times before; the key cache only ever holds keys the provider published. lastPing: over every history in which no heartbeat is accepted on a run id (invalid heartbeats, NewProxy / CloseProxy, work and visitor connections, refused logins, user connections in any number) the session's lastPing is still the one it started with. Key function: under the stated assumption that for a fixed timestamp different tokens give different keys, a Login / Ping / NewWorkConn whose key was computed from any other token (prefix, extension, one byte off) is refused and changes nothing. A user connection is joined only with a connection from the pool, and over every history a connection is in a pool only through a work connection the server accepted in the state of that moment. ssh gateway: for ANY ssh.ServerConfig without password / keyboard-interactive / gssapi callbacks and NoClientAuth off only a signed publickey request for a key the PublicKeyCallback accepts authenticates, whatever else the client tries in whatever order (the gateway's configuration is such: regenerated fact); with authorizedKeysFile configured the handshake succeeds only for a client that proves a key listed in the file as read at that moment, a client that fails it changes nothing, and over every history of network events and ssh tunnels no session holds the always-pass verifier unless such a client connected; without authorizedKeysFile the virtual client does not claim the exemption and a tunnel comes up only with the right --token. Kernel-checked, axioms propext/Quot.sound only. Source facts regenerated per run: `internal` is a parameter handed down from each listener's accept loop and never computed from a connection; which ServerConfig fields the gateway sets; where lastPing is stored; the statements of util.GetAuthKey. Tied per run by 8k (quick) operations against a real frps, incl. the real go-oidc verifier under key rotation and passing time, the real ssh gateway with every ssh auth method, tokens of 0-200 bytes with near-token keys, a real-time heartbeat-timeout scenario, and sieges of 64-319 consecutive refused operations.",
+        "note": "Finding (known, witness theorem workconn_scope_witness): RegisterWorkConn verifies with the SESSION's verifier, so a work connection from a network listener naming the run id of an ssh-gateway (always-pass) session is pooled without a key even with the NewWorkConns scope on; repaired model behind AuthGate.workVerifierIsFixed (theorem workconn_scope_fixed), Go patch hooks/C04-fix-workconn-verifier.patch. Trusted: Lean kernel; the hand-written model; harness generators; the read-only facts about who reaches RegisterControl with internal = true. Assumed and evaluated on util.GetAuthKey by the engine, not proved: for a fixed timestamp different tokens give different keys (KeyInjective; hypothesis of login_proves_token / other_token_*_refused). Not covered: MD5 / JWT signature / ssh cryptography (abstract predicates, exercised through the real libraries by the engine), timestamp freshness (none exists).",
     }
